@@ -51,6 +51,71 @@ unsafe impl GlobalAlloc for Tripwire {
 #[global_allocator]
 static GLOBAL: Tripwire = Tripwire;
 
+// ------------------------------------------------- the C heap below GlobalAlloc
+//
+// Allocations that bypass Rust's global allocator (glibc registering a thread-local destructor with
+// `calloc`, for instance) are invisible to the tripwire above. The process therefore also replaces the
+// malloc family (glibc resolves its own internal calls to the replacement, as documented under
+// "Replacing malloc") and counts calls made by an armed thread in the same counter.
+
+mod c_heap {
+    use super::{ARMED, TRIPS};
+    use std::ffi::{c_int, c_void};
+
+    extern "C" {
+        fn __libc_malloc(size: usize) -> *mut c_void;
+        fn __libc_calloc(n: usize, size: usize) -> *mut c_void;
+        fn __libc_realloc(p: *mut c_void, size: usize) -> *mut c_void;
+        fn __libc_memalign(align: usize, size: usize) -> *mut c_void;
+    }
+
+    #[inline]
+    fn trip() {
+        let _ = ARMED.try_with(|a| {
+            if a.get() {
+                let _ = TRIPS.try_with(|t| t.set(t.get() + 1));
+            }
+        });
+    }
+
+    #[no_mangle]
+    pub unsafe extern "C" fn malloc(size: usize) -> *mut c_void {
+        trip();
+        __libc_malloc(size)
+    }
+    #[no_mangle]
+    pub unsafe extern "C" fn calloc(n: usize, size: usize) -> *mut c_void {
+        trip();
+        __libc_calloc(n, size)
+    }
+    #[no_mangle]
+    pub unsafe extern "C" fn realloc(p: *mut c_void, size: usize) -> *mut c_void {
+        trip();
+        __libc_realloc(p, size)
+    }
+    #[no_mangle]
+    pub unsafe extern "C" fn memalign(align: usize, size: usize) -> *mut c_void {
+        trip();
+        __libc_memalign(align, size)
+    }
+    #[no_mangle]
+    pub unsafe extern "C" fn aligned_alloc(align: usize, size: usize) -> *mut c_void {
+        trip();
+        __libc_memalign(align, size)
+    }
+    #[no_mangle]
+    pub unsafe extern "C" fn posix_memalign(out: *mut *mut c_void, align: usize, size: usize) -> c_int {
+        trip();
+        let p = __libc_memalign(align, size);
+        if p.is_null() {
+            12 // ENOMEM
+        } else {
+            *out = p;
+            0
+        }
+    }
+}
+
 // ---------------------------------------------------------------------- mock
 
 const LOG_CAP: usize = 16;
